@@ -109,6 +109,7 @@ class Run:
         self.ticks_run = 0
         self.idle_actions: List[tuple] = []
         self.future_done_while_live = False
+        self.tick_trace_len: Dict[int, int] = {}  # trace length at the start of every tick
         self.paused_log: List[tuple] = []   # (tick, number of events so far, paused flag) after every tick/request
         self.events: List[tuple] = []       # time-ordered ('req', Req) / ('policy', kind) with trace length
         self.proc = make(self.loop) if make else prog(loop=self.loop)
@@ -151,6 +152,7 @@ class Run:
         r.tick = self.tick
         self.events.append(('req', r, len(programs.TRACE)))
         wf = getattr(getattr(p, '_state', None), '_waiting_future', None)
+        r.queue_len = self.loop.pending()
         r.pre = dict(
             state=p.state, paused=p.paused, terminated=p.has_terminated(),
             stepping=bool(getattr(p, '_stepping', False)),
@@ -159,6 +161,7 @@ class Run:
             waiting_future_done=bool(wf is not None and wf.done()),
             in_listener=r.where != GAP,
             trace_len=len(programs.TRACE),
+            n_entered=len(self.entered),
         )
         try:
             if r.act == PAUSE:
@@ -226,6 +229,7 @@ class Run:
         loop = self.loop
         while self.tick < self.max_ticks:
             n = self.tick
+            self.tick_trace_len[n] = len(programs.TRACE)
             for r in self.reqs:
                 if not r.applied and r.where == GAP and r.pos == n:
                     self.apply(r)
